@@ -38,6 +38,15 @@ func (d *Do) makeRestoreFunc(
 	}
 }
 
+// slotAt returns slots extended with nil entries so that index i is valid.
+func slotAt(slots []*base.T, i int) []*base.T {
+	for len(slots) <= i {
+		slots = append(slots, nil)
+	}
+
+	return slots
+}
+
 func recursiveCalculateType(paramT base.T, evaluatedObjectT *base.T) base.T {
 	switch paramT.GetType() {
 	case base.UNIFY:
@@ -115,7 +124,8 @@ func (d *Do) appendParameterBeforeTypeCalculate(
 			return blockParamaters
 		}
 
-		tmpParameters := [20]*base.T{}
+		// one slot per element position, grown on demand (see slotAt)
+		var tmpParameters []*base.T
 
 		if len(lastEvaluatedT.UnifyVariants().GetVariants()) == 0 {
 			blockParamaters =
@@ -136,6 +146,8 @@ func (d *Do) appendParameterBeforeTypeCalculate(
 				arrayVariants := variant.GetVariants()
 
 				for idx, arrayVariant := range arrayVariants {
+					tmpParameters = slotAt(tmpParameters, idx)
+
 					if tmpParameters[idx] == nil {
 						arrayT := base.MakeAnyArray()
 						tmpParameters[idx] = arrayT
@@ -147,10 +159,13 @@ func (d *Do) appendParameterBeforeTypeCalculate(
 			case base.KEYVALUE:
 				hashT := base.MakeAnyHash()
 				hashT.AppendHashVariant(variant)
+				tmpParameters = slotAt(tmpParameters, idx)
 				tmpParameters[idx] = hashT
 				continue
 
 			case base.OBJECT:
+				tmpParameters = slotAt(tmpParameters, idx)
+
 				if tmpParameters[idx] == nil {
 					arrayT := base.MakeAnyArray()
 					tmpParameters[idx] = arrayT
@@ -159,6 +174,8 @@ func (d *Do) appendParameterBeforeTypeCalculate(
 				tmpParameters[idx].AppendArrayVariant(variant)
 
 			default:
+				tmpParameters = slotAt(tmpParameters, 0)
+
 				if tmpParameters[0] == nil {
 					unionT := base.MakeUnion([]base.T{variant})
 					tmpParameters[0] = unionT
@@ -212,6 +229,13 @@ func (d *Do) appendParameterBeforeTypeCalculate(
 
 	case base.UNIFY_ARGUMENT:
 		tmpArgTs := p.GetTmpEvaluaetdArgs()
+
+		// the call has no argument to take the type from (h.merge { |k, a, b| })
+		if len(tmpArgTs) == 0 {
+			blockParamaters = append(blockParamaters, *base.MakeUntyped())
+			return blockParamaters
+		}
+
 		blockParamaters = append(blockParamaters, *tmpArgTs[0].UnifyVariants())
 		return blockParamaters
 
